@@ -165,7 +165,16 @@ def r1(repo, chk):
         mo = get_kw(c, "max_offset", 3)
         ok = False
         if isinstance(mo, ast.Call) and call_name(mo) == "min" and len(mo.args) == 2:
-            args = [wa._expand(x, 4, set()) for x in mo.args]  # hoisted single-definition locals are read through
+            # hoisted single-definition locals are read through - but only those computed in the same trip round the
+            # stream loop as the call: a value computed before the loop is stale after the first stream was served
+            stale = set()
+            for x in mo.args:
+                for nm in ast.walk(x):
+                    if isinstance(nm, ast.Name):
+                        for st_, t_, v_ in wa.assigns(chain=nm.id):
+                            if _innermost_loop(st_) is not _innermost_loop(c):
+                                stale.add(nm.id)
+            args = [wa._expand(x, 4, set(stale)) for x in mo.args]
             a = {norm(x) for x in args}
             st = norm(get_kw(c, "stream", 2))
             conn_ok = any(_is_conn_credit(x, st) for x in args)
@@ -194,6 +203,15 @@ def r1(repo, chk):
                 if isinstance(t, ast.Attribute) and fn.qual.startswith("QuicStreamSender.") and fn.qual not in ("QuicStreamSender.__init__", "QuicStreamSender.get_frame"):
                     others.append(fn.qual)
     chk.ob("R1", "QuicStreamSender.highest_offset has no other writer", not others, f"{others}", "")
+
+
+def _innermost_loop(n):
+    p = getattr(n, "_parent", None)
+    while p is not None:
+        if isinstance(p, (ast.For, ast.While)):
+            return p
+        p = getattr(p, "_parent", None)
+    return None
 
 
 def _is_conn_credit(e, st) -> bool:
